@@ -276,6 +276,9 @@ func Aff(base *Term, c int64) *Term {
 		return ConstInt(base.I + c)
 	}
 	if base.K == KAff {
+		if len(base.A) == 2 && base.A[1] != nil {
+			return Aff2(base.A[0], base.A[1], base.I+c)
+		}
 		return Aff(base.A[0], base.I+c)
 	}
 	if c == 0 {
@@ -284,7 +287,42 @@ func Aff(base *Term, c int64) *Term {
 	return mk(Term{K: KAff, I: c, A: []*Term{base}})
 }
 
+// Aff2 builds pos - neg + c (either symbol may be nil).
+func Aff2(pos, neg *Term, c int64) *Term {
+	if neg == nil {
+		return Aff(pos, c)
+	}
+	if pos == neg {
+		return ConstInt(c)
+	}
+	if neg.K == KConst && neg.IsInt {
+		return Aff(pos, c-neg.I)
+	}
+	if pos != nil && pos.K == KConst && pos.IsInt {
+		c += pos.I
+		pos = nil
+	}
+	return mk(Term{K: KAff, I: c, A: []*Term{pos, neg}})
+}
+
+// Aff2Parts splits an integer term into pos - neg + c.
+func Aff2Parts(t *Term) (pos, neg *Term, c int64) {
+	switch {
+	case t == nil:
+		return nil, nil, 0
+	case t.K == KConst && t.IsInt:
+		return nil, nil, t.I
+	case t.K == KAff:
+		if len(t.A) == 2 {
+			return t.A[0], t.A[1], t.I
+		}
+		return t.A[0], nil, t.I
+	}
+	return t, nil, 0
+}
+
 // AffParts splits an integer term into (base, offset); base nil for constants.
+// For terms with a negative symbol the base is the whole symbolic part.
 func AffParts(t *Term) (*Term, int64) {
 	switch {
 	case t == nil:
@@ -292,6 +330,9 @@ func AffParts(t *Term) (*Term, int64) {
 	case t.K == KConst && t.IsInt:
 		return nil, t.I
 	case t.K == KAff:
+		if len(t.A) == 2 && t.A[1] != nil {
+			return Aff2(t.A[0], t.A[1], 0), t.I
+		}
 		return t.A[0], t.I
 	}
 	return t, 0
@@ -342,7 +383,11 @@ func (t *Term) Map(f func(*Term) *Term) *Term {
 		if c.K == KWrap {
 			cur = Wrap(na...)
 		} else if c.K == KAff {
-			cur = Aff(na[0], c.I)
+			if len(na) == 2 {
+				cur = Aff2(na[0], na[1], c.I)
+			} else {
+				cur = Aff(na[0], c.I)
+			}
 		} else {
 			cur = mk(c)
 		}
@@ -491,10 +536,17 @@ func (t *Term) Pretty() string {
 	case KLookupOk:
 		return fmt.Sprintf("ok(%s[%s])", t.A[0].Pretty(), t.A[1].Pretty())
 	case KAff:
-		if t.I < 0 {
-			return fmt.Sprintf("%s-%d", t.A[0].Pretty(), -t.I)
+		base := t.A[0].Pretty()
+		if len(t.A) == 2 && t.A[1] != nil {
+			base = "(" + base + " - " + t.A[1].Pretty() + ")"
 		}
-		return fmt.Sprintf("%s+%d", t.A[0].Pretty(), t.I)
+		if t.I == 0 {
+			return base
+		}
+		if t.I < 0 {
+			return fmt.Sprintf("%s-%d", base, -t.I)
+		}
+		return fmt.Sprintf("%s+%d", base, t.I)
 	case KSym:
 		return "$" + t.S + gen
 	case KBin:
